@@ -48,11 +48,11 @@ AX2_MORE = [[0, "U1", []], [1, "G4", [1, 1]], [4, "G4", [2, 3]]]
 AX3 = [[1, "U2", [1]], [2, "U2", [2]], [1, "G4", [1, 1]], [0, "U2", [1]], [3, "U1", []]]
 TRIPLES_QUICK = [(0, 1, 2), (2, 0, 1), (3, 4, 0), (1, 3, 2), (2, 2, 2), (4, 0, 3)]
 
-GEOS = {1: ["none"], 2: ["none", "identity", "affine", "multilinear", "nurbs"],
-        3: ["none", "identity", "affine", "multilinear", "nurbs"]}
-IGEOS = {1: ["none", "identity", "affine", "quadratic"], 2: ["none", "affine", "multilinear", "nurbs"],
+GEOS = {1: ["none"], 2: ["none", "identity", "affine", "mirror", "multilinear", "nurbs"],
+        3: ["none", "identity", "affine", "mirror", "multilinear", "nurbs"]}
+IGEOS = {1: ["none", "identity", "affine", "quadratic"], 2: ["none", "affine", "mirror", "multilinear", "nurbs"],
          3: ["none", "affine", "multilinear", "nurbs"]}
-SCHEMES = ["greville", "cheb", "skew"]
+SCHEMES = ["greville", "cheb", "skew", "mixed"]
 
 
 def spaces(tier):
@@ -91,6 +91,8 @@ def cases(tier, seed):
                 continue
             cs.append({"part": "l2", "axes": axes, "geo": g, "seed": seed})
         for sch in SCHEMES:
+            if sch == "mixed" and d == 1:
+                continue
             if sch != "greville":
                 sp = sp or T.space(axes)
                 if T.interp_nodes(sp, sch) is None:
